@@ -86,6 +86,12 @@ func (rs *RuleSpec) program() *Program {
 	if rs.Family == "array-ext" {
 		t = ArrayOf(T(TString))
 	}
+	if rs.Family == "array-items" {
+		t = ArrayOf(T(rs.Kind))
+	}
+	if rs.Family == "map-items" {
+		t = MapOf(T(rs.Kind))
+	}
 	fd := &Field{Name: "val", T: t, Required: rs.Required, Attrs: attrs, Rule: rs}
 	f.Add(obj("Holder", fd))
 	return &Program{Files: []*File{f}}
@@ -368,6 +374,15 @@ func OtherRuleSpecs() []*RuleSpec {
 			out = append(out, rs)
 		}
 	}
+	for _, f := range []string{"email", "uuid", "hostname", "ipv4", "ipv6", "uri", "date"} {
+		mk("string:format-"+f, "string", TString, fmt.Sprintf("format = %q", f))
+	}
+	mk("any:only-defined-types", "any", TAny, "onlyDefined = true", `types = ["t.v1.Holder"]`)
+	mk("any:open-types", "any", TAny, `types = ["t.v1.Holder", "other.v1.Thing"]`)
+	mk("array-items:list-searchable", "array-items", TString, "items.string.listRules.searching.searchable = true")
+	mk("array-items:list-filter", "array-items", TInt64, "items.integer.listRules.filtering.filterable = true")
+	mk("map-items:string-rules", "map-items", TString, "itemSchema.string.rules.minLength = 2")
+	mk("map-items:integer-rules", "map-items", TInt32, "itemSchema.integer.rules.minimum = 1")
 	mk("array:single-form", "array-ext", TString, `ext.singleForm = "tag"`)
 	mk("map:single-form", "map", TString, `ext.singleForm = "entry"`)
 	return out
